@@ -177,9 +177,9 @@ theorem cutRemaining_cinv {input : List Scaffold} {N0 : Nat} {J : Option Gap} (h
 
 /-- a left-over scaffold: its adjacencies are adjacencies of ONE input scaffold, and when its recorded input predecessor
     has no gap, (predecessor, first left-over fragment) is an adjacency of that input scaffold -/
-def ExtraOK (input : List Scaffold) (e : Scaffold × Option (Fragment × Option Gap)) : Prop :=
+def ExtraOK (input : List Scaffold) (e : Scaffold × Option (Fragment × List Gap)) : Prop :=
   ∃ sc ∈ input, (∀ pr ∈ adjPairs e.1.rows, pr ∈ adjPairs sc.rows) ∧
-    ∀ prev c, e.2 = some (prev, none) → e.1.rows.head? = some (.frag c) → (prev, c) ∈ adjPairs sc.rows
+    ∀ prev c, e.2 = some (prev, []) → e.1.rows.head? = some (.frag c) → (prev, c) ∈ adjPairs sc.rows
 
 theorem find_missing_head (b : Build) (ps : List (Nat × Row)) (i : Nat) (row : Row)
     (h : ps.find? (C01.isMissing b) = some (i, row)) :
